@@ -1,5 +1,10 @@
 import chunk as _c
+import nodettl as N
 def run(chk):
-    _c.run(chk)
-def replay(chk, path):
-    _c.replay(chk, path)
+    thorough = chk.tier == "thorough"
+    _c.run(chk)                      # ChunkStore level: TLC design model, state/transition cover, random
+    # Node level: store_chunk / fetch_chunk / peer request / export / stored_chunks / tick
+    N.model_check(chk)
+    N.run_driver(chk, N.model_sequences(chk, 4000 if thorough else 600, foreign_offset=4), "node-tlc-state-cover")
+    N.run_driver(chk, N.random_behaviours(chk.rng, 3000 if thorough else 300, "c01"), "node-random-store-read")
+    chk.assumptions += N.ASSUME
